@@ -894,6 +894,19 @@ static void gen_junk_hosts(vh_rng_t *r, int cls, const cfg_names_t *nm, cfg_bb_t
       }
       break;
     case JH_IP_BADNAME:
+      if (vh_chance(r, 1, 3)) {
+        /* a NUL byte inside the name (or inside the address): the word is not what stands in front of the NUL, it
+         * is no word at all */
+        if (vh_chance(r, 1, 2)) {
+          cfg_bb_printf(l, "9.9.9.9 %s", known);
+          cfg_bb_add(l, "\0tail", 5);
+        } else {
+          cfg_bb_str(l, "9.9.9.9");
+          cfg_bb_add(l, "\0x", 2);
+          cfg_bb_printf(l, " %s", known);
+        }
+        break;
+      }
       cfg_bb_printf(l, "9.9.9.9 %s", PICK(r, badname));
       if (vh_chance(r, 1, 3)) {
         cfg_bb_printf(l, " %s", PICK(r, badname));
